@@ -147,6 +147,38 @@ fn is_xml_name(name: &[u8]) -> bool {
     }
 }
 
+/// Find a `&...` in character data or an attribute value which is not a
+/// well-formed reference: `&name;` (one of the predefined entities, or any
+/// name if the document declares its own), `&#N;` or `&#xH;` of a valid character.
+fn bad_reference(s: &str, custom_entities: bool) -> Option<String> {
+    let mut rest = s;
+    while let Some(pos) = rest.find('&') {
+        rest = &rest[pos + 1..];
+        let end = rest.find(';');
+        let body = end.map(|e| &rest[..e]).unwrap_or("");
+        let ok = if let Some(num) = body.strip_prefix('#') {
+            let cp = match num.strip_prefix('x') {
+                Some(hex) if !hex.is_empty() && hex.bytes().all(|b| b.is_ascii_hexdigit()) => {
+                    u32::from_str_radix(hex, 16).ok()
+                }
+                None if !num.is_empty() && num.bytes().all(|b| b.is_ascii_digit()) => {
+                    num.parse().ok()
+                }
+                _ => None,
+            };
+            cp.and_then(char::from_u32).is_some_and(is_xml_char)
+        } else {
+            matches!(body, "lt" | "gt" | "amp" | "apos" | "quot")
+                || (custom_entities && is_xml_name(body.as_bytes()))
+        };
+        if !ok {
+            let shown: String = rest.chars().take(12).collect();
+            return Some(format!("&{shown}"));
+        }
+    }
+    None
+}
+
 impl InputList {
     pub fn new() -> Self {
         Self { events: vec![] }
@@ -189,6 +221,8 @@ impl InputList {
         let mut src_line = 1;
         let mut indent = 0;
         let mut index = 0;
+        // set once a DOCTYPE with entity declarations has been seen
+        let mut declares_entities = false;
         loop {
             let ev = reader.read_event_into(&mut buf);
             let event_lines = if let Ok(ok_ev) = ev.clone() {
@@ -221,6 +255,22 @@ impl InputList {
                 if let Some(name) = bad_name {
                     return Err(SvgdxError::ParseError(format!(
                         "XML error near line {src_line}: invalid name '{name}'"
+                    )));
+                }
+                let bad_ref = match &ok_ev {
+                    Event::DocType(d) => {
+                        declares_entities |= d.as_ref().windows(8).any(|w| w == b"<!ENTITY");
+                        None
+                    }
+                    Event::Text(_) => bad_reference(ev_str, declares_entities),
+                    Event::Start(e) | Event::Empty(e) => e.attributes().flatten().find_map(|a| {
+                        bad_reference(&String::from_utf8_lossy(&a.value), declares_entities)
+                    }),
+                    _ => None,
+                };
+                if let Some(r) = bad_ref {
+                    return Err(SvgdxError::ParseError(format!(
+                        "XML error near line {src_line}: invalid reference '{r}'"
                     )));
                 }
                 if let Event::Start(e) | Event::Empty(e) = &ok_ev {
